@@ -406,7 +406,7 @@ impl Prop for C07 {
     fn plan(&self, tier: Tier) -> Plan {
         match tier {
             Tier::Quick => Plan { runs: 8000, time_box_s: None, isolation: Isolation::Threads },
-            Tier::Thorough => Plan { runs: 400_000, time_box_s: Some(420), isolation: Isolation::Threads },
+            Tier::Thorough => Plan { runs: 1_600_000, time_box_s: Some(420), isolation: Isolation::Threads },
         }
     }
     fn generate(&self, rc: &RunCtx) -> Case {
